@@ -10,6 +10,7 @@ import (
 	codectypes "github.com/cosmos/cosmos-sdk/codec/types"
 	"github.com/cosmos/cosmos-sdk/crypto/keys/ed25519"
 	sdk "github.com/cosmos/cosmos-sdk/types"
+	slashingtypes "github.com/cosmos/cosmos-sdk/x/slashing/types"
 	stakingtypes "github.com/cosmos/cosmos-sdk/x/staking/types"
 
 	"github.com/palomachain/paloma/v2/zzverif/sym"
@@ -24,6 +25,7 @@ type StakingVal struct {
 	Jailed  bool
 	Tokens  sdkmath.Int
 	Power   int64 // last validator power
+	Missed  int64 // missed blocks counter (slashing signing info)
 	ConsKey []byte
 }
 
@@ -218,5 +220,26 @@ func (s *Slashing) JailUntil(ctx context.Context, cons sdk.ConsAddress, t time.T
 		return ErrInjected
 	}
 	s.UntilCalls = append(s.UntilCalls, t)
+	return nil
+}
+
+func (s *Staking) GetValidatorByConsAddr(ctx context.Context, cons sdk.ConsAddress) (stakingtypes.Validator, error) {
+	for _, v := range s.Vals {
+		if v.ConsAddr().Equals(cons) {
+			return s.toSDK(v), nil
+		}
+	}
+	return stakingtypes.Validator{}, stakingtypes.ErrNoValidatorFound
+}
+
+// SignedBlocksWindow / IterateValidatorSigningInfos: x/slashing queries used by metrix.
+func (s *Slashing) SignedBlocksWindow(ctx context.Context) (int64, error) { return 100, nil }
+
+func (s *Slashing) IterateValidatorSigningInfos(ctx context.Context, fn func(sdk.ConsAddress, slashingtypes.ValidatorSigningInfo) (stop bool)) error {
+	for _, v := range s.Staking.Vals {
+		if fn(v.ConsAddr(), slashingtypes.ValidatorSigningInfo{Address: v.ConsAddr().String(), MissedBlocksCounter: v.Missed}) {
+			break
+		}
+	}
 	return nil
 }
